@@ -35,6 +35,8 @@ func C02(c *Ctx) {
 	r.Rule("R02.5", "record windows do not overlap: between loading an interchain record (getInterchain, or receiving it as a parameter) and writing it back (setInterchain, directly or in a helper that receives it), no other interchain record is written; the keys of two records are run-time values that may coincide (source == destination), and then the later write-back restores the stale copy, dropping the counter increment - the index would be accepted twice; a record loaded with getInterchain(k) is written back under the same key k.")
 	c.c02Windows()
 	r.Rule("R02.6", "acceptance consumes the index: on every path of ProcessIBTP through the request branch (Category() == REQUEST and not a rollback notification) InterchainCounter[to] is advanced and the record is written back before the function returns - also when the target is unavailable and the transaction begins as failed; otherwise checkIBTP keeps expecting the same index and the identical request is accepted again.")
+	r.Rule("R02.7", "listed in the accepting block and in no other (shared with C09 R09.9, C01 R01.7): "+perBlockResetText)
+	c.perBlockReset("R02.7")
 	c.c02Consumes()
 	r.NotDecided = append(r.NotDecided, "that the counters equal the number of accepted IBTPs over a history; block packing; unordered (batch) destinations are outside the property's 'ordered pair' scope")
 
